@@ -154,4 +154,7 @@ T5 = RICH.replace("\n", "\r\n")  # CRLF line endings
 T6 = RICH.replace('__version__ = "V1"', '__version__ = "V1" ')  # one trailing space on a line
 
 TEXTS = {"t1": T1, "t2": T2, "t3": T3, "t4": T4}
-TEXTS_THOROUGH = {"t1": T1, "t2": T2, "t3": T3, "t4": T4, "t5": T5, "t6": T6}
+# NOTE: the CRLF variant (T5) is deliberately NOT among the texts: the generator reads the model in text mode (universal
+# newlines), so for the program T5 *is* T1 and sharing the entry is correct (a thorough-tier false alarm of an earlier
+# version of this check).
+TEXTS_THOROUGH = {"t1": T1, "t2": T2, "t3": T3, "t4": T4, "t5": T6}
